@@ -70,6 +70,16 @@ claimed = {
    text="Document side: parse, FormatSchemaDocument under every configuration (4 indents × comments × compacted × builtin × without-description), re-parse, compare canonical projections (descriptions unless switched off; schema blocks merged, as the formatter prints them merged) and check the fixpoint. Loaded side: LoadSchema, FormatSchema under every configuration, load the text back and compare the canonical order-insensitive dumps (types, fields, arguments, defaults, directive uses, relations, roots, descriptions), then the fixpoint. Four recorded defects are excused only under their narrow keys (commas-only difference, schema-description-only difference, built-in-type-only difference, the __schema reload error under WithBuiltin).",
    note="Trusted: parser and loader as constructors (C06, C07), the dump/projection walkers. With WithBuiltin the text is loaded without the prelude as a built-in source.",
    ref="DESIGN.md §4 C13"),
+ "C02": dict(
+   technique=T + "every document of 13 validation-kit profiles (~48k), every type-blind document (grammar sentences ≤7/8 tokens × every assignment of 10 names to ≤4 name positions), every kit type system with ≤2/3 menu items (loaded, then validated against with type-blind documents), and 34 adversarial size families × n = 1…24, 2^k to 256/1024; invariant: returns normally (recovered panics, call-depth gauge, worker isolation) within a deterministic polynomial step bound",
+   text="Every enumerated (schema, document) is run through the real LoadSchema / Validate under the instrumented step counter and call-depth gauge: a panic, runaway recursion or a step count above the bound is a violation. Kit documents: 1.5·10⁶ steps (measured maximum ≈ 4·10⁴). Size families: 2·10⁶ + 10⁵·n + 15·n³ steps (the worst families are cubic, ≈ 0.72·n³); fragment fan-out (each fragment spreading the next twice) plain, under __schema, under a subscription, under overlapping fields, with variables; fragment cycles through fields; deep and wide selections; alias floods; nested values. Exponential behaviour exceeds the bound at n ≈ 24 without any clock. The same tree is validated twice.",
+   note="Trusted: the instrumenter's counters. Only syntactically valid documents are judged (the parser is C01/C05's business). Asymptotic claims are bounded by the explored grid.",
+   ref="DESIGN.md §4 C02"),
+ "C10": dict(
+   technique=T + "every profile document and type-blind document ≤5/6 tokens and every kit type system with ≤1/2 menu items × every map-iteration order the explorer can choose through the build-overlay seam (ascending, descending, every rotation up to the largest map ranged over, every permutation of maps ≤4 keys), re-validation of the validated tree, and three fresh un-instrumented processes compared by digest",
+   text="Go's randomised map iteration is put behind a seam: the overlay rewrites every `range` over a map in the repository to iterate a key order the explorer chooses. For every enumerated case the complete error list (messages with suggestions, rules, locations, paths, extensions, order) must be identical under every order, and when the already validated tree is validated again. Three fresh processes of the un-instrumented build (native map order, fresh hash seeds) must reproduce the digest of the ascending-order execution over all profile documents and kit type systems, which shows the seam owns the nondeterminism.",
+   note="Trusted: the instrumenter's map-range rewrite (every range over a map-typed expression; counted in instrument-stats.json). Nondeterminism from sources other than map order and hash seeds is only covered by the fresh-process comparison.",
+   ref="DESIGN.md §4 C10"),
 }
 checks = []
 for i in ids:
